@@ -106,7 +106,7 @@ def final_state(sc):
         return {"notes": notes, "blame": blame, "ncommits": len(run.commits)}
 
 
-def run_pair(args):
+def run_pair(args, _attempt=0):
     sc, variants = args
     out = []
     try:
@@ -115,6 +115,8 @@ def run_pair(args):
             got = final_state(v)
             out.append((v, base, got))
     except Exception as ex:
+        if _attempt < 2:
+            return run_pair(args, _attempt + 1)
         out.append((None, {"error": repr(ex), "trace": traceback.format_exc()[-1200:]}, None))
     return out
 
